@@ -1,6 +1,7 @@
 package mon
 
 import (
+	stded25519 "crypto/ed25519"
 	"fmt"
 
 	"github.com/go-i2p/common/encrypted_leaseset"
@@ -213,11 +214,40 @@ func runC06(c *core.Ctx) {
 					}
 				}
 				priv, _ := lib.LibSigningPrivateKey(signer)
+				// every representation of the signing key the constructor documents: the library's
+				// private-key type, a Signer made from it, the standard library's ed25519.PrivateKey
+				var keyArg any = priv
+				sh["key_repr"] = "types.SigningPrivateKey"
+				if signer.Type == 7 && priv != nil {
+					switch (i / 4) % 3 {
+					case 1:
+						if sg, err := priv.NewSigner(); err == nil {
+							keyArg = sg
+							sh["key_repr"] = "types.Signer"
+						}
+					case 2:
+						keyArg = stded25519.PrivateKey(append([]byte{}, signer.Ed25519Private()...))
+						sh["key_repr"] = "crypto/ed25519.PrivateKey"
+					}
+				}
+				// 16 keys / 16 leases: the largest counts the structure admits
+				if i%16 == 5 {
+					for len(m.Leases) < 16 {
+						m.Leases = append(m.Leases, gen.Lease2(r))
+					}
+					sh["leases"] = 16
+				}
+				if i%16 == 11 {
+					for len(m.Keys) < 16 {
+						m.Keys = append(m.Keys, rm.EncKey{Type: 4, Data: r.Bytes(32)})
+					}
+					sh["keys"] = 16
+				}
 				c.Eval(1)
 				var ls *lease_set2.LeaseSet2
 				var ok bool
 				var err error
-				panicked, _, _ := c.Call("lease_set2.NewLeaseSet2", nil, func() { ls, ok, err = lib.BuildLeaseSet2(m, priv) })
+				panicked, _, _ := c.Call("lease_set2.NewLeaseSet2", nil, func() { ls, ok, err = lib.BuildLeaseSet2(m, keyArg) })
 				if panicked || !ok {
 					return
 				}
